@@ -12,7 +12,7 @@ import itertools
 LANGS = {
     "C": dict(lexer="c", fam="c", nest=False, classes=False),
     "Cpp": dict(lexer="cpp", fam="cpp", nest=False, classes=True),
-    "CSharp": dict(lexer="csharp", fam="cs", nest=False, classes=True),
+    "CSharp": dict(lexer="csharp", fam="cs", nest=True, classes=True),      # C# local functions are reported as nested functions
     "Java": dict(lexer="java", fam="java", nest=False, classes=True),
     "JavaScript": dict(lexer="javascript", fam="js", nest=True, classes=True),
     "TypeScript": dict(lexer="typescript", fam="ts", nest=True, classes=True),
@@ -41,6 +41,7 @@ def IF(body): return St("if", body)
 def LOOP(body): return St("loop", body)
 def CALL(): return St("call")
 def LIT(): return St("lit")
+def LITD(): return St("litdelim")
 def INIT(): return St("init")
 def ANON(body): return St("anon", body)
 def N(k): return St("n", n=k)
@@ -93,6 +94,9 @@ class Renderer:
                 self.emit("  " * depth + lc + "\n")
             elif k == 2 and self.fam != "py":
                 self.emit("  " * depth + "/* block\n" + "  " * depth + "   comment */\n")
+            if self.fam in ("c", "cpp") and self.nline % 5 == 3:
+                # a disabled region: Pygments gives its lines the bare Comment type
+                self.emit("#if 0\n" + "  " * depth + "dead(code);\n\n" + "  " * depth + "more(dead);\n#endif\n")
             trail = (" " + lc) if self.nline % 3 == 0 else ("  " if self.nline % 3 == 1 else "")
             self.emit("  " * depth + s + trail + "\n")
             return
@@ -137,6 +141,13 @@ class Renderer:
             self.line(depth, f"foo(a, bar(b)){end}")
         elif k == "lit":
             self.line(depth, f"{self.var()} = \"a{{b(c}}) d\"{end}")
+        elif k == "litdelim":    # literals whose WHOLE content is one delimiter (lexers split quotes and content into separate tokens)
+            self.line(depth, f"{self.var()} = \"{{\"{end}")
+            self.line(depth, f"{self.var()} = \"(\"{end}")
+            if self.fam in ("c", "cpp", "cs", "java"):
+                self.line(depth, f"{self.var()} = '{{'{end}")
+            self.line(depth, f"{self.var()} = \")\"{end}")
+            self.line(depth, f"{self.var()} = \"}}\"{end}")
         elif k == "init":
             if self.fam in ("c", "cpp"):
                 self.line(depth, f"int {self.var()}[] = {{1, 2}};")
@@ -208,6 +219,8 @@ class Renderer:
         a, b = ("int a", "int b") if typed else (("a: number", "b: number") if fam == "ts" else ("a", "b"))
         if f.params == "none":
             return ["()"]
+        if f.params == "twogroups":   # an identifier followed by TWO balanced groups (macro-style / curried headers)
+            return [f"(tag)({a}, {b})"]
         if f.params == "simple":
             return [f"({a}, {b})"]
         if f.params == "multiline":
@@ -252,7 +265,7 @@ class Renderer:
         if fam in ("c", "cpp"):
             pre_kw = "int "
         elif fam in ("cs", "java"):
-            pre_kw = "public int " if kind != "ctor" else "public "
+            pre_kw = ("int " if self.stack else "public int ") if kind != "ctor" else "public "
             if kind == "throws" and fam == "java":
                 post = " throws IOException, E2"
             if kind == "throwslong" and fam == "java":
@@ -434,6 +447,9 @@ def programs(lang, tier="quick", seed=0):
         add("brace-next", top([F("f1", [S(), RET()], brace="next")]))
     add("params-multiline", top([F("f1", [S(), RET()], params="multiline")]))
     add("params-none", top([F("f1", [RET()], params="none")]))
+    if fam in ("c", "cpp", "js"):
+        add("params-twogroups", top([F("f1", [S(), RET()], params="twogroups"), F("f2", [S()])]))
+    add("literal-delimiters", top([F("f1", [S(), LITD(), RET()]), F("f2", [S()])]))
     if fam in ("py", "js", "ts", "cpp", "cs"):
         add("params-bracegroup", top([F("f1", [S(), RET()], params="bracegroup")]))
     if fam in ("py", "js", "ts", "cpp"):
